@@ -233,6 +233,24 @@ func init() {
 		{"double-quoted-unterminated", "<?php \"x", ""},
 	}
 	units := []string{" ", "\t", "\n", "\r\n", "\\", "$", "{", "a", "0", "<", "?", "-", "*", "/", "#", "\"", "'", "`", "$a", "{$", "->", "\\\\", " A\n", "A\n", "\n A", " \n", "\\$", "\\\"", "?>", "<?"}
+	// the scaled valid programs (G3v) as scaling shapes: size n = bytes
+	for _, sh := range gen.ScaledShapes {
+		sh := sh
+		unit := len(sh.Make(2, "\n")) - len(sh.Make(1, "\n"))
+		if unit <= 0 {
+			unit = 1
+		}
+		c01Shapes = append(c01Shapes, struct {
+			name string
+			make func(n int) []byte
+		}{"valid:" + sh.Name, func(n int) []byte {
+			k := n / unit
+			if strings.HasPrefix(sh.Name, "nested-") && k > 4000 {
+				k = 4000 + (k-4000)/8 // deep nesting: recursion depth of the tree walkers stays moderate
+			}
+			return []byte(sh.Make(k, "\n"))
+		}})
+	}
 	for _, st := range states {
 		for _, u := range units {
 			st, u := st, u
